@@ -197,20 +197,22 @@ func SpecIs4In6(s string) bool {
 // sortedKeys: every code of the map exactly once: the codes other than 82 and 255 in strictly ascending order, then 82
 // if present, then 255 if present. seen(c): key c has been produced by the map range loop (ghost; Go visits each key once).
 //@ contract (Options).sortedKeys
+//@   let M = mapview(o)
 //@   ensures[fresh] fresh(result)
 //@   ensures[range] forall i int :: {result[i]} 0 <= i && i < len(result) ==> 0 <= result[i] && result[i] <= 255 && has(o, uint8(result[i]))
-//@   ensures[complete] forall c uint8 :: {has(o, c)} has(o, c) ==> (exists i int :: 0 <= i && i < len(result) && result[i] == int(c))
-//@   ensures[count] skLen(o, result) >= 0
-//@   ensures[sorted] forall i int, j int :: {result[i], result[j]} 0 <= i && i < j && j < skLen(o, result) ==> result[i] < result[j]
-//@   ensures[body] forall i int :: {result[i]} 0 <= i && i < skLen(o, result) ==> result[i] != 82 && result[i] != 255
-//@   ensures[tail82] has(o, 82) ==> result[skLen(o, result)] == 82
-//@   ensures[tail255] has(o, 255) ==> result[len(result)-1] == 255
+//@   ensures[local-keys] keysOK(M, string(result))
+//@   use lemmaKeysCanonical(M, string(result))
+//@   ensures[canonical] specEncList(M, string(result), 0) == specEncFrom(M, 0)
 //@   loop 0 invariant[fresh] fresh(codes) && (codes == nil || allocated(codes)) && off(codes) >= 0
 //@   loop 0 invariant[range] forall i int :: {codes[i]} 0 <= i && i < len(codes) ==> 0 <= codes[i] && codes[i] <= 255 && codes[i] != 82 && codes[i] != 255 && seen(uint8(codes[i])) && has(o, uint8(codes[i]))
 //@   loop 0 invariant[distinct] forall i int, j int :: {codes[i], codes[j]} 0 <= i && i < j && j < len(codes) ==> codes[i] != codes[j]
 //@   loop 0 invariant[seen] forall c uint8 :: {seen(c)} seen(c) && c != 82 && c != 255 ==> (exists i int :: 0 <= i && i < len(codes) && codes[i] == int(c))
 //@   loop 0 invariant[flags] hasOptAgentInfo == seen(82) && hasOptEnd == seen(255)
-//@ define skLen(o, r) = len(r) - ite(has(o, 82), 1, 0) - ite(has(o, 255), 1, 0)
+
+// keysOK(m, ks): the byte string ks lists every code of m exactly once: the codes other than 82 and 255 in strictly
+// ascending order (the first kBody(m, ks) items), then 82 if present, then 255 if present
+//@ define kBody(m, ks) = len(ks) - ite(specHas(m, 82), 1, 0) - ite(specHas(m, 255), 1, 0)
+//@ define keysOK(m, ks) = kBody(m, ks) >= 0 && (forall i int :: {ks[i]} 0 <= i && i < len(ks) ==> specHas(m, ks[i])) && (forall c uint8 :: {specHas(m, c)} specHas(m, c) ==> (exists i int :: {ks[i]} 0 <= i && i < len(ks) && ks[i] == c)) && (forall i int, j int :: {ks[i], ks[j]} 0 <= i && i < j && j < kBody(m, ks) ==> ks[i] < ks[j]) && (forall i int :: {ks[i]} 0 <= i && i < kBody(m, ks) ==> ks[i] != 82 && ks[i] != 255) && (specHas(m, 82) ==> ks[kBody(m, ks)] == 82) && (specHas(m, 255) ==> ks[len(ks)-1] == 255)
 
 //@ contract bytes.Repeat
 //@   trusted
@@ -228,19 +230,109 @@ func SpecIs4In6(s string) bool {
 //@   ensures lexGrown(b)
 //@   ensures string(b.Buffer.data) == old(string(b.Buffer.data)) + specIP4(string(ip))
 
+// ---------- C07 / C01: the options area an encoder writes ----------
+// specification-level maps: map[uint8]string; specHas is known to the engine by name
+func specHas(m map[uint8]string, c uint8) bool { _, ok := m[c]; return ok }
+
+// specEncChunks: RFC 3396 -- a value longer than 255 bytes travels as consecutive instances of at most 255 bytes
+//@ contract specEncChunks
+//@   decreases len(v)
+func specEncChunks(c int, v string) string {
+	if len(v) == 0 {
+		return ""
+	}
+	if len(v) <= 255 {
+		return specByte(c) + specByte(len(v)) + v
+	}
+	return specByte(c) + specByte(255) + v[:255] + specEncChunks(c, v[255:])
+}
+
+// specEncOne: one option: code, length, value (RFC 2132 section 2); an empty value is written as one zero-length instance
+func specEncOne(c int, v string) string {
+	if len(v) == 0 {
+		return specByte(c) + specByte(0)
+	}
+	return specEncChunks(c, v)
+}
+
+// specEncFrom: the canonical options area for the codes >= c: ascending code order, pad (0) and end (255) never written
+// as options, the relay agent information option (82) last (RFC 3046 section 2.1)
+//@ contract specEncFrom
+//@   requires c >= 0
+//@   decreases 256 - c
+//@   ensures[gap] forall d int :: {specEncFrom(m, d)} c <= d && d <= 255 && (forall k uint8 :: {specHas(m, k)} c <= int(k) && int(k) < d && k != 82 && k != 0 ==> !specHas(m, k)) ==> result == specEncFrom(m, d)
+func specEncFrom(m map[uint8]string, c int) string {
+	if c > 254 {
+		if specHas(m, 82) {
+			return specEncOne(82, m[82])
+		}
+		return ""
+	}
+	if c != 82 && c != 0 && specHas(m, uint8(c)) {
+		return specEncOne(c, m[uint8(c)]) + specEncFrom(m, c+1)
+	}
+	return specEncFrom(m, c+1)
+}
+
+// specEncList: what Marshal writes for the key list ks (one byte per code) from index i on: pad and end are skipped
+//@ contract specEncList
+//@   requires i >= 0
+//@   decreases len(ks) - i
+func specEncList(m map[uint8]string, ks string, i int) string {
+	if i >= len(ks) {
+		return ""
+	}
+	if ks[i] == 255 || ks[i] == 0 {
+		return specEncList(m, ks, i+1)
+	}
+	return specEncOne(int(ks[i]), m[ks[i]]) + specEncList(m, ks, i+1)
+}
+
+// lemmaKeysFrom (induction over the key list, from the back): the list encoding from item i on is the canonical encoding
+// from code ks[i] on; lemmaKeysCanonical: hence the whole list encodes to the canonical options area
+//@ contract lemmaKeysFrom
+//@   requires keysOK(m, ks) && 0 <= i && i <= len(ks)
+//@   decreases len(ks) - i
+//@   ensures[body] i < kBody(m, ks) ==> specEncList(m, ks, i) == specEncFrom(m, int(ks[i]))
+//@   ensures[tail] i == kBody(m, ks) ==> specEncList(m, ks, i) == specEncFrom(m, 255)
+//@   ensures[end] i > kBody(m, ks) ==> specEncList(m, ks, i) == ""
+func lemmaKeysFrom(m map[uint8]string, ks string, i int) {
+	if i < len(ks) {
+		lemmaKeysFrom(m, ks, i+1)
+	}
+}
+
+//@ contract lemmaKeysCanonical
+//@   requires keysOK(m, ks)
+//@   ensures specEncList(m, ks, 0) == specEncFrom(m, 0)
+func lemmaKeysCanonical(m map[uint8]string, ks string) {
+	lemmaKeysFrom(m, ks, 0)
+}
+
 //@ contract (Options).Marshal
 //@   requires lexOK(b)
 //@   requires forall c uint8 :: {mapval(o, c)} {mapdom(o, c)} o[c] == nil || (ref(o[c]) != ref(b.Buffer.data) && ref(o[c]) != ref(b.Buffer) && ref(o[c]) != ref(b))
 //@   requires o == nil || (ref(o) != ref(b) && ref(o) != ref(b.Buffer) && ref(o) != ref(b.Buffer.data))
 //@   modifies b.Buffer, b.Buffer.data[len(b.Buffer.data):cap(b.Buffer.data)]
 //@   let w0 = string(b.Buffer.data)
+//@   let M = mapview(o)
 //@   ensures lexGrown(b)
 //@   ensures[prefix] len(b.Buffer.data) >= len(w0) && string(b.Buffer.data)[:len(w0)] == w0
+//@   ensures[layout] string(b.Buffer.data) == w0 + specEncFrom(M, 0)
 //@   loop 0 invariant[prefix] len(b.Buffer.data) >= len(w0) && string(b.Buffer.data)[:len(w0)] == w0
 //@   loop 1 invariant[prefix] len(b.Buffer.data) >= len(w0) && string(b.Buffer.data)[:len(w0)] == w0
-//@   loop 0 invariant[lexer] lexSame(b) && b.err == old(b.err) && ref(b.Buffer.data) >= old(ref(b.Buffer.data)) && (ref(b.Buffer.data) == old(ref(b.Buffer.data)) || fresh(b.Buffer.data)) && (ref(b.Buffer.data) == old(ref(b.Buffer.data)) ==> off(b.Buffer.data) == old(off(b.Buffer.data))) && len(b.Buffer.data) >= old(len(b.Buffer.data))
-//@   loop 1 invariant[lexer] lexSame(b) && b.err == old(b.err) && ref(b.Buffer.data) >= old(ref(b.Buffer.data)) && (ref(b.Buffer.data) == old(ref(b.Buffer.data)) || fresh(b.Buffer.data)) && (ref(b.Buffer.data) == old(ref(b.Buffer.data)) ==> off(b.Buffer.data) == old(off(b.Buffer.data))) && len(b.Buffer.data) >= old(len(b.Buffer.data))
-//@   loop 1 invariant[data] ref(data) == ref(o[code]) && len(data) >= 0
+//@   loop 0 invariant[lexer] lexSame(b) && b.err == old(b.err) && ref(b.Buffer.data) >= old(ref(b.Buffer.data)) && (ref(b.Buffer.data) == old(ref(b.Buffer.data)) || fresh(b.Buffer.data)) && (ref(b.Buffer.data) == old(ref(b.Buffer.data)) ==> off(b.Buffer.data) == old(off(b.Buffer.data)) && cap(b.Buffer.data) == old(cap(b.Buffer.data))) && len(b.Buffer.data) >= old(len(b.Buffer.data))
+//@   loop 1 invariant[lexer] lexSame(b) && b.err == old(b.err) && ref(b.Buffer.data) >= old(ref(b.Buffer.data)) && (ref(b.Buffer.data) == old(ref(b.Buffer.data)) || fresh(b.Buffer.data)) && (ref(b.Buffer.data) == old(ref(b.Buffer.data)) ==> off(b.Buffer.data) == old(off(b.Buffer.data)) && cap(b.Buffer.data) == old(cap(b.Buffer.data))) && len(b.Buffer.data) >= old(len(b.Buffer.data))
+//@   loop 0 let K = string(rangeval)
+//@   loop 0 invariant[values] forall c uint8 :: {mapval(o, c)} {mapdom(o, c)} string(o[c]) == M[c]
+//@   loop 1 invariant[values] forall c uint8 :: {mapval(o, c)} {mapdom(o, c)} string(o[c]) == M[c]
+//@   loop 0 invariant[keys-mem] fresh(rangeval) && (len(rangeval) == 0 || (allocated(rangeval) && ref(rangeval) != ref(b.Buffer.data)))
+//@   loop 1 invariant[keys-mem] fresh(rangeval) && (len(rangeval) == 0 || (allocated(rangeval) && ref(rangeval) != ref(b.Buffer.data)))
+//@   loop 0 invariant[keys] len(K) == len(rangeval) && (forall j int :: {rangeval[j]} 0 <= j && j < len(rangeval) ==> int(K[j]) == rangeval[j]) && specEncList(M, K, 0) == specEncFrom(M, 0) && (forall i int :: {K[i]} 0 <= i && i < len(K) ==> 0 <= K[i] && K[i] <= 255)
+//@   loop 1 invariant[keys] len(K) == len(rangeval) && (forall j int :: {rangeval[j]} 0 <= j && j < len(rangeval) ==> int(K[j]) == rangeval[j])
+//@   loop 0 invariant[work] string(b.Buffer.data) + specEncList(M, K, rangeindex+1) == w0 + specEncList(M, K, 0)
+//@   loop 1 invariant[data] ref(data) == ref(o[code]) && len(data) >= 0 && int(code) == int(K[rangeindex+1]) && rangeindex+1 < len(K) && code != 255 && code != 0
+//@   loop 1 invariant[work] string(b.Buffer.data) + specEncChunks(int(code), string(data)) + specEncList(M, K, rangeindex+2) == w0 + specEncList(M, K, 0)
 //@   loop 1 decreases len(data)
 
 // specByte / specZeros are known to the engine by name (one byte with value n mod 256 / n zero bytes).
